@@ -118,6 +118,7 @@ def memload_unit(prefix, sb_present, si_present):
                              **({full("b"): None} if ci == "unknown" else {full("b"): [oi.concretize(m), ev(vi)]} if ci == "tracked" else {})}))
 
             res.add_paths(paths, post, concretize=conc, kind=f"so{int(so_present)}lb{int(lb_present)}li{int(li_present)}{lo_kind}pre{int(pre)}{cb[0]}{ci[0]}")
+            res.add_diff(paths, "d_c06_memload", lambda m, p: conc(m, p)["args"], limit=2)
         return res
 
     return unit
